@@ -6,9 +6,9 @@ import json
 
 PROPS = {
     'C20': {
-        'search_cmds': [['exploreflood']],
+        'always_cmds': [['exploreflood']],
         'engines': [('explore', 150, 3000, ['-shardsize', '50'])],
-        'rule': 'histories of 8-20 (8-30) ops on the REAL Explore with 1-3 worker goroutines: full discovery updates over 5 hashes x 3 jobs '
+        'rule': 'plus, in every run, the queue flood (exploreflood: 10060 targets, 4 workers whose probes hang, Get(all) until nothing moves, release, Get(all) again: Get must return and every target must have been probed); histories of 8-20 (8-30) ops on the REAL Explore with 1-3 worker goroutines: full discovery updates over 5 hashes x 3 jobs '
                 '(adds, removals, moves), Get, reloads dropping/restoring a job, completion of the oldest blocked probe of a hash with success '
                 '(counts) or failure, and "let the retry timers fire" (real sleeps; retry interval 400 ms via hook); the probe function is '
                 'replaced (hook) by one that blocks until the harness completes it, so the harness is the scheduler. Observed after every op: '
